@@ -260,8 +260,11 @@ class CodeGenerator:
                     last_block = self.builder.block
                     self.builder.set_block(None)
                     ir_function.delete_unreachable()
-                    assert not last_block.is_used
-                    assert last_block not in ir_function
+                    if last_block.is_used or last_block in ir_function:
+                        # The end of the function can be reached
+                        raise SemanticError(
+                            "Function does not return a value", function.loc
+                        )
                 else:
                     raise SemanticError(
                         "Function does not return a value", function.loc
